@@ -19,8 +19,15 @@ built = built.replace("PROPERTY_TABLE_PLACEHOLDER", run("mktable.py"))
 matrix = run("mkmatrix.py")
 built = built.replace("DETECTION_MATRIX_PLACEHOLDER", matrix)
 R = json.load(open(os.path.join(V, "seeded", "RESULTS.json")))
-ben = {k: v for k, v in R.items() if k.startswith("benign")}
-alarms = sum(1 for v in ben.values() if any(isinstance(c, dict) and c.get("exit") == 1 for c in v.values()))
-built = built.replace("BENIGN_RESULT_PLACEHOLDER", "%d edits x 20 checks, %d alarms" % (len(ben), alarms))
+def alarmed(v):
+    return sorted(c for c, x in v.items() if isinstance(x, dict) and x.get("exit") == 1)
+
+
+own = {k: v for k, v in R.items() if k.startswith("benign") and not k.startswith("benign_rf_")}
+rf = {k: v for k, v in R.items() if k.startswith("benign_rf_")}
+rf_al = {k: alarmed(v) for k, v in rf.items() if alarmed(v)}
+txt = "own edits: %d x 20 checks, %d alarms; independent refactorings: %d, of which %d still raise an alarm: %s" % (
+    len(own), sum(1 for v in own.values() if alarmed(v)), len(rf), len(rf_al), ", ".join("%s (%s)" % (k[10:], " ".join(c)) for k, c in sorted(rf_al.items())) or "none")
+built = built.replace("REFACTOR_RESULT_PLACEHOLDER", txt).replace("BENIGN_RESULT_PLACEHOLDER", txt)
 open(os.path.join(V, "DESIGN.md"), "w").write(plan + "\n" + built)
 print("DESIGN.md written (%d lines)" % (plan.count("\n") + built.count("\n")))
